@@ -21,17 +21,32 @@ def run(ctx):
     exprs, meta = [], []
     n = 240 if ctx.thorough else 60
     skipped = 0
-    for k in range(n):
-        nsp = rng.choice([0, 1, 1, 2, 3, 5])
+    for k in range(n + 1):
+        # the last run is fixed: 30 spas that answer every broadcast twice - more than the consumer's one datagram per poll can take before the
+        # initial wait is over (known finding K14)
+        over = (k == n)
+        crowd = (k % 10 == 9)       # a network full of spas that all answer every broadcast at once: more replies outstanding than the consumer takes per poll
+        nsp = 30 if over else rng.choice([18, 23]) if crowd else rng.choice([0, 1, 1, 2, 3, 5])
+        if crowd:
+            ctx.count("runs_with_a_crowd_of_spas")
         spas = []
         for i in range(nsp):
-            sid = b"SPA%02d:aa:bb" % i if rng.random() < 0.85 else b"SPA00:aa:bb"      # sometimes two devices share an identifier
+            sid = b"SPA%02d:aa:bb" % i if (crowd or rng.random() < 0.85) else b"SPA00:aa:bb"      # sometimes two devices share an identifier
             reps = []
             for b in range(4):
-                if rng.random() < 0.7:
+                if over:
+                    reps.append((b, 0.01, 2))
+                elif crowd:
+                    # within what the consumer can take before the initial wait is over (one datagram per 0.1 s poll): one reply each to the first
+                    # broadcast, and again to the last one
+                    if b in (0, 3):
+                        reps.append((b, rng.choice([0.01, 0.02, 0.05]), 1))
+                elif rng.random() < 0.7:
                     reps.append((b, rng.choice([0.01, 0.05, 0.13, 0.4, 1.2, 3.9, 6.0]), rng.choice([1, 1, 2, 3])))
             spas.append(dict(id=sid, name=rng.choice(NAMES), addr=("10.0.0.%d" % (i + 1), 10022), replies=reps))
         mode = rng.choice(["none", "none", "id", "id_absent", "addr", "id+addr", "id+addr"])
+        if over:
+            mode = "none"
         fid = None
         faddr = None
         if mode == "id" and spas:
@@ -47,6 +62,8 @@ def run(ctx):
         # an early stall longer than one poll interval takes the polls off the 0.1 s grid (no float comparisons on a threshold)
         stalls = [(0.05, rng.choice([0.1137, 0.1291, 0.1733]))] + [(rng.choice([0.25, 0.6, 1.3, 2.1]), rng.choice([0.013, 0.057, 0.12, 0.31])) for _ in range(rng.choice([0, 1, 2, 3]))]
         hd = rng.choice([0.0, 0.0, 0.0, 0.0517, 0.633, 1.471])
+        if over:
+            stalls, hd = [(0.05, 0.1137)], 0.0
         if hd:
             ctx.count("runs_with_suspending_discovered_handler")
         r = discovery.run_discovery(spas, filt_id=fid, filt_addr=faddr, stalls=stalls, seed=k, handler_delay=hd)
@@ -112,6 +129,11 @@ def run(ctx):
                 npending = len(arrivals)
                 if passes and sid not in ids_listed and r["duration"] - t_arr > 0.35 + 0.11 * len(r["labels"]) ** 0.5 + hd * (1 + npending) + sum(dt for _, dt in stalls):
                     prob = "responding spa %r (reply at the socket %.2f s after the start, discovery returned after %.2f s) is not listed" % (sid, t_arr, r["duration"])
+                    # was its reply ever reached? the consumer takes ONE datagram per poll, in arrival order
+                    pos = next(i for i, l in enumerate([l for l in r["labels"] if l[0] == "A"]) if l[1] == sid) + 1
+                    taken = sum(1 for l in r["labels"] if l[0] == "C")
+                    if taken < pos:
+                        prob = "BACKLOG " + prob + ": its reply was number %d in the receive queue and the consumer, which takes one datagram per 0.1 s poll, had taken %d when discovery returned" % (pos, taken)
         if prob is None and r["broadcasts"] < int(r["duration"] - 0.25 - sum(dt for _, dt in stalls)):
             # the hello goes out once per second for as long as discovery runs: it is what gets an answer out of a spa whose earlier reply was lost
             prob = "broadcast sent only %d times during a discovery of %.2f s (once per second expected, whatever has been listed)" % (r["broadcasts"], r["duration"])
